@@ -40,6 +40,14 @@ def nullable(t):
     return t[1] if t[0] == "nonnull" else t
 
 
+def strengthen(t, rng, p=0.4):
+    """A type that is a subtype of t for input purposes: non-null added at random depths."""
+    base = t[1] if t[0] == "nonnull" else t
+    if base[0] == "list":
+        base = ("list", strengthen(base[1], rng, p))
+    return ("nonnull", base) if t[0] == "nonnull" or rng.random() < p else base
+
+
 def type_str(t):
     if t[0] == "named":
         return t[1]
